@@ -12,21 +12,21 @@ Proof.
   - destruct (a =? c) eqn:Q; try discriminate. inversion H; subst. apply N.eqb_eq in Q. subst. auto.
 Qed.
 
-Lemma strip_repr_app : forall s body r, strip_repr s = (body, r) -> s = body ++ repr_tail r.
+Lemma strip_repr_app : forall z s body r, strip_repr z s = (body, r) -> s = body ++ repr_tail r.
 Proof.
-  unfold strip_repr. intros s body r.
+  unfold strip_repr. intros z s body r.
   destruct (rev s) as [|c [|d [|x rest]]] eqn:R; intros H; try (inversion H; subst; simpl; rewrite app_nil_r; reflexivity).
-  destruct ((d =? cDOT) && is_repr_char c) eqn:Q.
+  destruct ((d =? cDOT) && is_repr_char z c) eqn:Q.
   - inversion H; subst. simpl. apply andb_true_iff in Q. destruct Q as [Q _]. apply N.eqb_eq in Q. subst d.
     rewrite <- (rev_involutive s). rewrite R. simpl. rewrite <- app_assoc. simpl. reflexivity.
   - inversion H; subst. simpl. rewrite ?app_nil_r. reflexivity.
 Qed.
 
-Lemma repr_like_false : forall s, repr_like s = false -> strip_repr s = (s, None).
+Lemma repr_like_false : forall s, repr_like s = false -> strip_repr false s = (s, None).
 Proof.
   unfold repr_like, strip_repr. intros s.
   destruct (rev s) as [|c [|d [|x rest]]]; auto.
-  destruct ((d =? cDOT) && is_repr_char c); auto. discriminate.
+  destruct ((d =? cDOT) && is_repr_char false c); auto. discriminate.
 Qed.
 
 Lemma slashdot_app : forall e body a b c, slashdot e body = (a, b, c) -> body = a ++ b ++ c.
@@ -51,8 +51,8 @@ Lemma undot_match : forall (A : Type) (code : str) (f : str -> A) (g : A),
 Lemma isnil_true : forall {A} (l : list A), isnil l = true -> l = [].
 Proof. destruct l; simpl; intros; auto; discriminate. Qed.
 
-Definition bc_core (fns px sx cur1 code1 : str) : str * nat :=
-  let '(body, repr) := strip_repr code1 in
+Definition bc_core (z : bool) (fns px sx cur1 code1 : str) : str * nat :=
+  let '(body, repr) := strip_repr z code1 in
   let '(aaaa, bbbb, cccc) := slashdot false body in
   if isnil fns && isnil cur1 && isnil px && isnil sx then (code1, length aaaa)
   else
@@ -61,8 +61,8 @@ Definition bc_core (fns px sx cur1 code1 : str) : str * nat :=
     let nspart' := if str_eqb name sINDEX && negb (isnil nspart) then [] else nspart in
     (nspart' ++ name ++ cccc ++ repr_tail repr, length nspart').
 
-Definition sc_core (is_name : bool) (base px sx code1 : str) : str * nat :=
-  let '(body, repr) := if is_name then (code1, None) else strip_repr code1 in
+Definition sc_core (z : bool) (is_name : bool) (base px sx code1 : str) : str * nat :=
+  let '(body, repr) := if is_name then (code1, None) else strip_repr z code1 in
   let '(pre, cccc) := match split_last cSLASH body with
                       | Some (a, b) => (a, cSLASH :: b) | None => (body, []) end in
   let '(sub, nm) := match split_last cDOT pre with
@@ -71,38 +71,38 @@ Definition sc_core (is_name : bool) (base px sx code1 : str) : str * nat :=
   if str_eqb name sINDEX then (name ++ cccc ++ repr_tail repr, 0%nat)
   else ((base ++ sub) ++ name ++ cccc ++ repr_tail repr, length (base ++ sub)).
 
-Lemma build_code_core : forall fns px sx cur code,
-  build_code fns px sx cur code false =
-  bc_core fns px sx (match code with c :: _ => if c =? cDOT then [] else cur | [] => cur end) (undot code).
+Lemma build_code_core : forall z fns px sx cur code,
+  build_code fns px sx cur code false z =
+  bc_core z fns px sx (match code with c :: _ => if c =? cDOT then [] else cur | [] => cur end) (undot code).
 Proof.
   intros. unfold build_code, bc_core, undot. destruct code as [|c rest]; auto.
   destruct (c =? cDOT); auto.
 Qed.
 
-Lemma spec_code_core : forall is_name fns px sx cur code,
-  spec_code is_name fns px sx cur code false =
-  sc_core is_name (with_dot fns ++ with_dot (match code with c :: _ => if c =? cDOT then [] else cur | [] => cur end))
+Lemma spec_code_core : forall z is_name fns px sx cur code,
+  spec_code is_name fns px sx cur code false z =
+  sc_core z is_name (with_dot fns ++ with_dot (match code with c :: _ => if c =? cDOT then [] else cur | [] => cur end))
           px sx (undot code).
 Proof.
   intros. unfold spec_code, sc_core, undot. destruct code as [|c rest]; auto.
   destruct (c =? cDOT); auto. simpl. rewrite app_nil_r. reflexivity.
 Qed.
 
-Lemma core_agrees : forall is_name fns px sx cur1 code1,
-  (let '(body, _) := strip_repr code1 in
+Lemma core_agrees : forall z is_name fns px sx cur1 code1,
+  (let '(body, _) := strip_repr z code1 in
    let '(aaaa, bbbb, _) := slashdot false body in
    str_eqb bbbb sINDEX && negb (isnil aaaa)) = false ->
-  (is_name = true -> repr_like code1 = false) ->
-  bc_core fns px sx cur1 code1 = sc_core is_name (with_dot fns ++ with_dot cur1) px sx code1.
+  (is_name = true -> z = false /\ repr_like code1 = false) ->
+  bc_core z fns px sx cur1 code1 = sc_core z is_name (with_dot fns ++ with_dot cur1) px sx code1.
 Proof.
-  intros is_name fns px sx cur1 code1 HI HR.
+  intros z is_name fns px sx cur1 code1 HI HR.
   unfold bc_core, sc_core.
     (* representation suffix *)
-    assert (Hb : (if is_name then (code1, @None N) else strip_repr code1) = strip_repr code1).
-    { destruct is_name; auto. symmetry. apply repr_like_false. apply HR. auto. }
+    assert (Hb : (if is_name then (code1, @None N) else strip_repr z code1) = strip_repr z code1).
+    { destruct is_name; auto. destruct (HR eq_refl) as [Hz Hr]. subst z. symmetry. apply repr_like_false. auto. }
     rewrite Hb. clear Hb.
-    destruct (strip_repr code1) as [body repr] eqn:SR.
-    pose proof (strip_repr_app _ _ _ SR) as Hcode.
+    destruct (strip_repr z code1) as [body repr] eqn:SR.
+    pose proof (strip_repr_app _ _ _ _ SR) as Hcode.
     destruct (slashdot false body) as [[aaaa bbbb] cccc] eqn:SD.
     pose proof (slashdot_app _ _ _ _ _ SD) as Hbody.
     (* expose the two splits of the specification: they are slashdot false *)
@@ -157,12 +157,12 @@ Proof.
 Qed.
 
 (* where the region condition holds, _GD_BuildCode computes the Standards' name/code *)
-Theorem build_code_agrees : forall is_name fns px sx cur code nons,
+Theorem build_code_agrees : forall is_name fns px sx cur code nons z,
   (nons = true \/
-   (index_like code = false /\ (is_name = true -> repr_like (undot code) = false))) ->
-  build_code fns px sx cur code nons = spec_code is_name fns px sx cur code nons.
+   (index_like z code = false /\ (is_name = true -> z = false /\ repr_like (undot code) = false))) ->
+  build_code fns px sx cur code nons z = spec_code is_name fns px sx cur code nons z.
 Proof.
-  intros is_name fns px sx cur code nons H.
+  intros is_name fns px sx cur code nons z H.
   destruct nons.
   - (* no namespaces *)
     clear H. unfold build_code, spec_code, slashdot.
